@@ -11,19 +11,16 @@ Proof. intros. cbn. reflexivity. Qed.
 Lemma qscript_eager_flushed : forall ms, qscript ms ->
   forall tr s, map fst tr = ms -> pending s = [] -> pending (run false s tr) = [].
 Proof.
-  induction 1 as [|ms Hq IH|ms Hq IH|w ms Hq IH|ws k ms Hk Hq IH|w ms Hq IH|w1 w2 ms Hq IH];
+  induction 1 as [|ms Hq IH|ms Hq IH|pre k ms Hpre Hk Hq IH|w ms Hq IH|w1 w2 ms Hq IH];
     intros tr s Htr Hs.
   - destruct tr; [exact Hs|discriminate].
   - apply map_fst_cons in Htr. destruct Htr as (c & tr' & -> & Htr).
     rewrite run_cons. apply IH; assumption.
   - apply map_fst_cons in Htr. destruct Htr as (c & tr' & -> & Htr).
     rewrite run_cons. apply IH; [assumption|]. reflexivity.
-  - apply map_fst_cons in Htr. destruct Htr as (c1 & tr1 & -> & Htr).
-    apply map_fst_cons in Htr. destruct Htr as (c2 & tr2 & -> & Htr).
-    rewrite !run_cons. apply IH; [assumption|]. reflexivity.
-  - apply map_fst_cons in Htr. destruct Htr as (c1 & tr1 & -> & Htr).
-    apply map_fst_cons in Htr. destruct Htr as (c2 & tr2 & -> & Htr).
-    rewrite !run_cons. apply IH; [assumption|]. reflexivity.
+  - apply map_fst_block in Htr. destruct Htr as (tpre & c & tr' & -> & Hmpre & Htr).
+    rewrite run_app, run_cons. apply IH; [assumption|].
+    rewrite run_writes by (rewrite Hmpre; exact Hpre). reflexivity.
   - apply map_fst_cons in Htr. destruct Htr as (c1 & tr1 & -> & Htr).
     apply map_fst_cons in Htr. destruct Htr as (c2 & tr2 & -> & Htr).
     rewrite !run_cons. apply IH; [assumption|]. reflexivity.
